@@ -55,4 +55,33 @@ func init() {
 		},
 		Undecided: []string{"global lemma `complete iff no node in the whole tree awaits work` (needs an inductive subtree view; only the per-node rule is proved)", "DedupeItems functional spec `exactly one node per URL` beyond the per-removal obligations", "GetNodesAtLevel / GetMaxDepth / Traverse / GetDepthWithoutRedirections are not yet under contract here (see C06)"},
 	}
+	propInfo["C06"] = PropInfo{
+		Explanation: "Bounded work per seed, as contracts on the real functions: (1) postprocessItem: a redirect response at the redirect limit completes the node without a child (redirect-max); below the limit exactly one Fresh child is added whose URL carries Redirects+1 and the page's hops (redirect-one), so along any chain Redirects grows by one per redirect edge and never exceeds --max-redirect; with domains-crawl off a node deeper than 2 levels (GetDepthWithoutRedirections, verified against the recursive definition dwr) is completed without children (depth); non-archived nodes are left alone; AddChild preconditions hold at every call site (wfNode loop invariant). (2) archive$1 retry loop: invariant attempts = entry + retry and retry <= MaxRetry with net/http Client.Do counted by a ghost counter, hence at most --max-retry + 1 attempts per visit, and the loop is never left through its condition (so the response used afterwards is the last one obtained). (3) hop bookkeeping: isStatusCodeRedirect and shouldExtractOutlinks/shouldExtractAssets against their definitions (outlinks only from pages with hops < max-hops unless domains-crawl), extractAssets: nil and self-referencing assets filtered, every returned asset carries the page's hops (for extractions without separate outlinks).",
+		Assumptions: []string{
+			"A-cfg: MaxRetry >= 0",
+			"net/http (*Client).Do is one attempt per call (ghost counter), returns a non-nil response with non-nil body iff err == nil",
+			"extractor / site-specific entry points are opaque (modify only URL caches and fresh objects); domainscrawl.Enabled/Match are functions of configuration and URL text",
+			"ProcessBody, rate-limiter manager calls, discard hook: opaque, do not touch configuration or the retry state",
+		},
+		Undecided: []string{"lemma `number of pipeline passes is bounded` (ranking function over the tree) is argued from redirect-one/depth, not mechanised", "outlink hop values (hops+1 / 0 on domains-crawl match) for extractions that return assets and outlinks together: needs distinctness of the returned URL objects", "wall-clock time of a pass"},
+	}
+	propInfo["C09"] = PropInfo{
+		Explanation: "NormalizeURL: an accepted URL went through the scheme gate (http/https), the host gate (dotted, not localhost/127.0.0.1) and its stored text is the ada serialisation taken after the fragment was cleared; relative references are resolved by ada against scheme://host (path-absolute) or the parent's text (other) - field-exact postconditions over an abstract model of the goada object; the absolute branch is a function of the URL text. URLToString: signed reddit hosts keep their raw query, otherwise RawQuery = reenc(old RawQuery) where reenc names what encodeRawQuery computes; that this is a function of the text is the structural obligation `deterministic` (no map iteration, select, goroutine or clock in URLToString / encodeRawQuery or their module callees); host converted by idna; result = net/url serialisation of the updated fields; (*URL).String$1 stores exactly that in the cache.",
+		Assumptions: []string{
+			"goada (ada-url) implements WHATWG parsing/resolution; New/NewWithBase/Href/Protocol/Hostname are functions of their text arguments; SetHash(\"\") removes the fragment and keeps protocol/host (contracts/lib/c09_goada.spec)",
+			"idna.ToASCII, net/url Parse/String/QueryEscape/QueryUnescape, strings.Cut are functions of their arguments (lib specs)",
+			"(*URL).String (sync.Once wrapper) is opaque; encodeRawQuery's body is opaque (only its determinism is checked)",
+		},
+		Undecided: []string{"idempotence (normalising a canonical string again leaves it unchanged) and `resolves as the URL standard prescribes`: properties of ada-url, reachable only through the assumptions", "that reenc keeps order and multiplicity is read off encodeRawQuery (pair-by-pair loop), not proved"},
+	}
+	propInfo["C08"] = PropInfo{
+		Explanation: "Local seencheck (seencheck.SeencheckItem) over an abstract store map (key -> asset|seed): loop invariants level/only-seen/monotone/no-demotion and per-node step invariants: a node ends Seen only if the store reported its key with a compatible type (call-site assertion `sound` on every SetStatus, assert-all), every not-seen node's key is recorded with its type afterwards, the asset->seed promotion exception is honoured and recorded as seed. Crawl-HQ seencheck (hq.SeencheckItem): on a client error no status changes; a node is newly marked Seen only if the answer lacks the value sent for it (URL.Raw).",
+		Assumptions: []string{"LevelDB get/set behave as a map (opaque isSeen/seen; the write is assumed to succeed)", "gocrawlhq Seencheck returns the subset of sent values that are new and touches no module state", "GetNodesAtLevel/GetMaxDepth opaque", "same canonical URL => same key relies on C09 (URL.String a function of the text) and on fnv being a function"},
+		Undecided: []string{"that the request slice handed to HQ carries the nodes' URL.Raw (append of struct elements is abstracted by the engine)", "preprocess: Seen nodes get no request (preprocess stays opaque)", "two workers racing between isSeen and seen on the same URL"},
+	}
+	propInfo["C15"] = PropInfo{
+		Explanation: "hopsToPath/pathToHops tied to spec functions (strings.Repeat/Count) + lemma hops-roundtrip (pathToHops(hopsToPath(h)) = h for h >= 0); record conversions field-exact at the point where the queue record is built (HQ and LQ producers: Value = raw URL text, Via = seedVia, Path/Hops from the hop count; finisher receivers: ack record carries the item's id); lq client Add/Delete/Get: every row offered / deleted / claimed by id, exactly one commit on success, none on error, caller's rows not written; sender retry loops (hq producerSender/finisherSender, lq finisherSender): return only after a successful Add/Delete of the whole unchanged batch or when the context is done - the client may fail arbitrarily often; receiver batching: received = handed + len(batch), 0 <= len < batchSize at the loop head, fresh backing array after each hand-off (size- and timer-triggered paths); dispatcher goroutines forward their own batch; postprocessItem: every outlink item carries the parent page's canonical URL as via.",
+		Assumptions: []string{"gocrawlhq client Add/Delete: error result unconstrained (any number of failures), touch no module state", "database/sql Begin/Commit/Rollback and the sqlc queries as ghost-recording opaque contracts; the SQLite UNIQUE index and the matched error text are not modelled", "strings.Repeat/Count axiom count(repeat(\"L\", n), \"L\") = n"},
+		Undecided: []string{"record -> item conversion in the consumers and finisher.worker (callers of the reactor API: C12 contracts name thread-local ghosts)", "multiset equality of batch contents (only counts are proved: append of struct elements is abstracted)", "delay bounds"},
+	}
 }
